@@ -19,7 +19,7 @@ use crate::core::{bump, bump_by, catch, Caught, RunOutcome, Stats, Violation};
 use crate::faultio::{gen_io_plan, FaultyWriter, IoPlan};
 use crate::model::canon::{canon_tt, distinct_choice_nodes, recreate, walk_tt};
 use crate::model::tt::TT;
-use crate::model::dotread::{parse_dot, DotGraph, Term};
+use crate::model::dotread::{parse_bdd_dot, parse_dot, DotGraph, Term};
 use crate::model::fast::{self, Printer, F};
 use crate::model::tt::low_mask;
 use crate::prng::{digest_bytes, mix, Prng};
@@ -276,7 +276,7 @@ fn judge_diagram<S: BDDSymbol>(plan: &DotPlan, w: &World<S>, stats: &mut Stats, 
     trace.push(text.lines().count() as u64);
 
     // D3: read back
-    let g = match parse_dot(&text) {
+    let g = match parse_bdd_dot(&text) {
         Ok(g) => g,
         Err(e) => {
             vs.push(viol("D3", "syntax", format!("exported text does not read back: {e}")));
@@ -355,20 +355,29 @@ fn judge_diagram<S: BDDSymbol>(plan: &DotPlan, w: &World<S>, stats: &mut Stats, 
             Err(e) => vs.push(viol("D4", "render", e)),
             Ok(b) => {
                 let ft = String::from_utf8_lossy(&b).to_string();
-                match parse_dot(&ft) {
+                match parse_bdd_dot(&ft) {
                     Err(e) => vs.push(viol("D4", "syntax", format!("filtered export does not read back: {e}"))),
                     Ok(fg) => {
-                        let mut want_nodes: Vec<(String, String)> = g.nodes.iter().filter(|(id, _)| id != dropped).cloned().collect();
-                        let mut want_edges: Vec<(String, String, String)> = g.edges.iter().filter(|(_, t, _)| t != dropped).cloned().collect();
-                        let mut got_nodes = fg.nodes.clone();
-                        let mut got_edges = fg.edges.clone();
-                        want_nodes.sort();
-                        want_edges.sort();
-                        got_nodes.sort();
-                        got_edges.sort();
-                        if want_nodes != got_nodes {
+                        // compared up to the spelling of node ids (an exporter may number nodes per export):
+                        // same labels, and the same graph from the root
+                        let want = DotGraph {
+                            name: g.name.clone(),
+                            nodes: g.nodes.iter().filter(|(id, _)| id != dropped).cloned().collect(),
+                            edges: g.edges.iter().filter(|(_, t, _)| t != dropped).cloned().collect(),
+                        };
+                        let labels = |x: &DotGraph| {
+                            let mut v: Vec<String> = x.nodes.iter().map(|(_, l)| l.clone()).collect();
+                            v.sort();
+                            v
+                        };
+                        let shape = |x: &DotGraph| -> String {
+                            let mut roots: Vec<String> = x.roots().iter().map(|r| x.canonical_form(r)).collect();
+                            roots.sort();
+                            roots.join(" ; ")
+                        };
+                        if fg.well_formed().is_err() || labels(&want) != labels(&fg) {
                             vs.push(viol("D4", "nodes", format!("filter {filter}: declared nodes differ from the unfiltered export minus {dropped}")));
-                        } else if want_edges != got_edges {
+                        } else if want.edges.len() != fg.edges.len() || shape(&want) != shape(&fg) {
                             vs.push(viol("D4", "edges", format!("filter {filter}: edges differ from the unfiltered export minus the edges into {dropped}")));
                         }
                     }
@@ -417,7 +426,7 @@ fn judge_diagram<S: BDDSymbol>(plan: &DotPlan, w: &World<S>, stats: &mut Stats, 
     }
     let d2 = build(&env2, &target, &*w.sym, 1 - plan.route);
     if let Ok(b2) = render(&d2, TruthTableEntry::Any) {
-        if let Ok(g2) = parse_dot(&String::from_utf8_lossy(&b2)) {
+        if let Ok(g2) = parse_bdd_dot(&String::from_utf8_lossy(&b2)) {
             let r2 = g2.roots();
             if r2.len() == 1 {
                 let c1 = g.canonical_form(&root);
@@ -448,7 +457,7 @@ fn judge_diagram<S: BDDSymbol>(plan: &DotPlan, w: &World<S>, stats: &mut Stats, 
         bump(stats, "probe.plain_tree_exported");
         match render(&plain, TruthTableEntry::Any) {
             Err(e) => vs.push(viol("D3", "render-plain", e)),
-            Ok(bp) => match parse_dot(&String::from_utf8_lossy(&bp)) {
+            Ok(bp) => match parse_bdd_dot(&String::from_utf8_lossy(&bp)) {
                 Err(e) => vs.push(viol("D3", "syntax-plain", format!("export of an un-interned diagram does not read back: {e}"))),
                 Ok(gp) => {
                     if let Err(e) = gp.well_formed() {
